@@ -152,8 +152,10 @@ class Ctx:
             "seed": self.seed, "level": self.level, "coverage": _jsonable(cov),
             "assumptions": self.assumptions, "wall_s": round(wall, 3), "violations": self.violations,
         }
-        EVIDENCE.mkdir(exist_ok=True)
-        (EVIDENCE / f"{self.pid}.json").write_text(json.dumps(ev, indent=1, sort_keys=True) + "\n")
+        # supplementary models (ids X..) are not listed properties: their evidence is kept apart from /verif/evidence
+        evdir = EVIDENCE if not self.pid.startswith("X") else VERIF / "evidence_ext"
+        evdir.mkdir(exist_ok=True)
+        (evdir / f"{self.pid}.json").write_text(json.dumps(ev, indent=1, sort_keys=True) + "\n")
         status = "VIOLATED" if self.violations else "held"
         print(f"[{self.pid}] {status}: evaluations={cov['evaluations']} distinct={cov['distinct_nontrivial']} "
               f"states={cov['states']} traces={cov['traces_validated_against_impl']} wall={wall:.1f}s", flush=True)
